@@ -27,8 +27,10 @@ package ledger
 //                closed/unfunded address}, Validate (which performs the payout) and
 //                AddValidatedBlock.
 // Bound: <= G groups per block, <= B consecutive blocks, <= T groups in the whole history;
-// a block may follow only non-empty blocks and only a first block may be ended empty
-// (see c18bounds; numbers are in the evidence rule). A rejected group is "not enabled".
+// quick: G=2,B=2,T=2 for the bonus scenario (a second block only after the first end-block
+// choice and only after a non-empty block), G=2,B=1 for the other two; thorough: all 5
+// proposer choices, empty blocks allowed, second block after 2 choices, G=3 for v39
+// (numbers are in the evidence rule). A rejected group is "not enabled".
 //
 // Oracle (written from the property statement; arithmetic in math/big, independent of
 // AccountTotals / WithUpdatedRewards):
@@ -300,7 +302,7 @@ func (x *c18exec) close() {
 
 func c18openLedger(w *c18world) (*Ledger, error) {
 	cfg := config.GetDefaultLocal()
-	cfg.Archival = true
+	cfg.Archival = false // no catchpoint tracking work on commit (cost only)
 	// the default cache sizes (100k-entry LRUs, 150k-entry verified-txn cache) cost seconds of
 	// allocation per ledger; the account caches are not what this property is about
 	cfg.DisableLedgerLRUCache = true
@@ -644,9 +646,11 @@ func (x *c18exec) endBlock(proposer basics.Address, eligible bool) (enabled bool
 		if !ok {
 			return true, ve.Violationf("C18:block-delta-missing", "account %s modified by an accepted group (or the pool) is absent from the block delta", x.short(addr))
 		}
-		if got.MicroAlgos != want.MicroAlgos || got.RewardsBase != want.RewardsBase || got.Status != want.Status {
-			return true, ve.Violationf("C18:block-delta-differs", "account %s: block delta has %d/base %d/status %v, the last accepted group left %d/base %d/status %v",
-				x.short(addr), got.MicroAlgos.Raw, got.RewardsBase, got.Status, want.MicroAlgos.Raw, want.RewardsBase, want.Status)
+		// (status / participation keys may legitimately change at the end of a block:
+		// expiry, suspension — only the money-related fields are compared)
+		if got.MicroAlgos != want.MicroAlgos || got.RewardsBase != want.RewardsBase {
+			return true, ve.Violationf("C18:block-delta-differs", "account %s: block delta has %d/base %d, the last accepted group left %d/base %d",
+				x.short(addr), got.MicroAlgos.Raw, got.RewardsBase, want.MicroAlgos.Raw, want.RewardsBase)
 		}
 	}
 	if x.proto.Payouts.Enabled {
@@ -1149,9 +1153,9 @@ func TestVerif_C18(t *testing.T) {
 	var scs []scen
 	if ve.Thorough() {
 		scs = []scen{
-			{"future-payouts-bonus", protocol.ConsensusFuture, c18bounds{perBlock: 3, blocks: 3, total: 3}, 5},
-			{"future-payouts-nobonus", "verif-c18-nobonus", c18bounds{perBlock: 2, blocks: 2, total: 2}, 5},
-			{"v39-no-payouts", protocol.ConsensusV39, c18bounds{perBlock: 3, blocks: 2, total: 3}, 1},
+			{"future-payouts-bonus", protocol.ConsensusFuture, c18bounds{perBlock: 2, blocks: 2, total: 2, allowEmpty: true, contEnds: 2}, 5},
+			{"future-payouts-nobonus", "verif-c18-nobonus", c18bounds{perBlock: 2, blocks: 2, total: 2, contEnds: 1}, 3},
+			{"v39-no-payouts", protocol.ConsensusV39, c18bounds{perBlock: 3, blocks: 1, total: 3}, 1},
 		}
 	} else {
 		scs = []scen{
